@@ -531,7 +531,11 @@ impl FixedCapacityMemoryPool {
 
         // Try to pop from free list
         loop {
+            #[cfg(zipora_verif)]
+            crate::memory::verif_sched::point(crate::memory::verif_sched::FC_POP_LOAD);
             let current_head = free_list.head.load(Ordering::Acquire);
+            #[cfg(zipora_verif)]
+            crate::memory::verif_sched::note(crate::memory::verif_sched::FC_POP_LOAD, current_head as u64);
             
             if current_head == LIST_TAIL {
                 // Try to split from larger size class
@@ -542,6 +546,8 @@ impl FixedCapacityMemoryPool {
             let memory = unsafe { (*self.memory.get()).ok_or_else(|| 
                 ZiporaError::invalid_data("Memory not allocated"))? };
             let block_ptr = unsafe { memory.as_ptr().add(current_head as usize) };
+            #[cfg(zipora_verif)]
+            crate::memory::verif_sched::point(crate::memory::verif_sched::FC_POP_NEXT);
             let header = unsafe { &*(block_ptr as *const BlockHeader) };
 
             // Verify header integrity
@@ -550,6 +556,11 @@ impl FixedCapacityMemoryPool {
             }
 
             let next_offset = header.next;
+            #[cfg(zipora_verif)]
+            {
+                crate::memory::verif_sched::note(crate::memory::verif_sched::FC_POP_NEXT, next_offset as u64);
+                crate::memory::verif_sched::point(crate::memory::verif_sched::FC_POP_CAS);
+            }
 
             // Try to update head atomically
             if free_list.head.compare_exchange_weak(
@@ -558,10 +569,17 @@ impl FixedCapacityMemoryPool {
                 Ordering::Release,
                 Ordering::Relaxed,
             ).is_ok() {
+                #[cfg(zipora_verif)]
+                {
+                    crate::memory::verif_sched::note(crate::memory::verif_sched::FC_POP_CAS, 1);
+                    crate::memory::verif_sched::point(crate::memory::verif_sched::FC_POP_COUNT);
+                }
                 free_list.count.fetch_sub(1, Ordering::Relaxed);
                 return NonNull::new(block_ptr)
                     .ok_or_else(|| ZiporaError::invalid_data("Null block pointer"));
             }
+            #[cfg(zipora_verif)]
+            crate::memory::verif_sched::note(crate::memory::verif_sched::FC_POP_CAS, 0);
             
             // CAS failed, retry
         }
@@ -573,6 +591,8 @@ impl FixedCapacityMemoryPool {
         for larger_class in (size_class_index + 1)..self.size_classes.len() {
             let free_lists = unsafe { &*self.free_lists.get() };
             let free_list = &free_lists[larger_class];
+            #[cfg(zipora_verif)]
+            crate::memory::verif_sched::point(crate::memory::verif_sched::FC_SPLIT_PEEK);
             let head = free_list.head.load(Ordering::Acquire);
             
             if head != LIST_TAIL {
@@ -606,19 +626,66 @@ impl FixedCapacityMemoryPool {
 
         // Add to free list
         loop {
+            #[cfg(zipora_verif)]
+            crate::memory::verif_sched::point(crate::memory::verif_sched::FC_PUSH_LOAD);
             let current_head = free_list.head.load(Ordering::Acquire);
+            #[cfg(zipora_verif)]
+            {
+                crate::memory::verif_sched::note(crate::memory::verif_sched::FC_PUSH_LOAD, current_head as u64);
+                crate::memory::verif_sched::point(crate::memory::verif_sched::FC_PUSH_NEXT);
+            }
             header.next = current_head;
 
+            #[cfg(zipora_verif)]
+            crate::memory::verif_sched::point(crate::memory::verif_sched::FC_PUSH_CAS);
             if free_list.head.compare_exchange_weak(
                 current_head,
                 offset,
                 Ordering::Release,
                 Ordering::Relaxed,
             ).is_ok() {
+                #[cfg(zipora_verif)]
+                {
+                    crate::memory::verif_sched::note(crate::memory::verif_sched::FC_PUSH_CAS, 1);
+                    crate::memory::verif_sched::point(crate::memory::verif_sched::FC_PUSH_COUNT);
+                }
                 free_list.count.fetch_add(1, Ordering::Relaxed);
                 return Ok(());
             }
+            #[cfg(zipora_verif)]
+            crate::memory::verif_sched::note(crate::memory::verif_sched::FC_PUSH_CAS, 0);
         }
+    }
+
+    /// Verification inspector: number of size classes.
+    #[cfg(zipora_verif)]
+    pub fn verif_num_classes(&self) -> usize {
+        self.size_classes.len()
+    }
+
+    /// Verification inspector: `(head, count)` of the free list of size class `index`.
+    #[cfg(zipora_verif)]
+    pub fn verif_class_state(&self, index: usize) -> Option<(u32, u32)> {
+        let free_lists = unsafe { &*self.free_lists.get() };
+        let fl = free_lists.get(index)?;
+        Some((fl.head.load(Ordering::SeqCst), fl.count.load(Ordering::SeqCst)))
+    }
+
+    /// Verification inspector: the `next` link stored in the header of the block at `offset`.
+    #[cfg(zipora_verif)]
+    pub fn verif_read_link(&self, offset: u32) -> Option<u32> {
+        let memory = unsafe { (*self.memory.get())? };
+        if offset == LIST_TAIL || offset as usize + std::mem::size_of::<BlockHeader>() > self.total_capacity() {
+            return None;
+        }
+        let header = unsafe { &*(memory.as_ptr().add(offset as usize) as *const BlockHeader) };
+        Some(header.next)
+    }
+
+    /// Verification inspector: base address of the backing memory (0 before lazy allocation).
+    #[cfg(zipora_verif)]
+    pub fn verif_base(&self) -> usize {
+        unsafe { (*self.memory.get()).map(|p| p.as_ptr() as usize).unwrap_or(0) }
     }
 
     /// Find appropriate size class for allocation
